@@ -237,6 +237,12 @@ def e_default():
                     yield Item('enum', I('A'), tparam(), [], False, [dw(traits, gen_T())], vs)
     for shape, fields in shapes[3:]:
         yield Item('struct', I('A'), tparam(), [], False, [dw(['Default', 'Debug'])], [Variant(I('A'), shape, fields)])
+    # field-less structs: accepted only with an item-level `incomparable`; `default()` is `A` / `A()` / `A {}`
+    for shape, fields in shapes[:3]:
+        for traits in (['Default', 'PartialEq'], ['PartialOrd', 'Default', 'PartialEq', 'Clone']):
+            for inc_first in (False, True):
+                attrs = [dw(traits), Attr('dw', opt('incomparable'))]
+                yield Item('struct', I('A'), [], [], False, attrs[::-1] if inc_first else attrs, [Variant(I('A'), shape, fields)])
     # zero or two defaults
     vs = [Variant(I('X'), 'unit', []), Variant(I('Y'), 'unit', [])]
     yield Item('enum', I('A'), tparam(), [], False, [dw(['Default'])], vs)
